@@ -206,6 +206,36 @@ def concrete_checks(chk):
                 chk.violation(f"history:{nm}", f"[{nm}] " + "; ".join(pr), dict(reproduced=True, observed=dict(problems=pr), note="concrete history on the real code"))
             chk.enumerated.append(f"history: {nm}")
 
+    # a rejected build is a mutation attempt like any other: nodes of a live model cannot join a second model, and the attempt leaves the
+    # first model exactly as it was (outputs still the inverse of inputs, assignments still propagate)
+    def second_build(which):
+        a = lsl.Var(1.0, name="a")
+        b = lsl.Var(lsl.Calc(lambda x: 2.0 * x, a), name="b")
+        c = lsl.Var(lsl.Calc(lambda x, y: x + y, a, b), name="c")
+        m = lsl.GraphBuilder().add(c).build_model()
+        attempt = {"GraphBuilder().add(a)": lambda: lsl.GraphBuilder().add(a).build_model(), "GraphBuilder().add(b)": lambda: lsl.GraphBuilder().add(b).build_model(),
+                   "Model([a, c])": lambda: lsl.Model([a, c]), "GraphBuilder().add(c).build_model(copy=True)": None}[which]
+        pr = []
+        if attempt is not None:
+            try:
+                attempt()
+                pr.append("a second model over nodes of a live model was accepted")
+            except RuntimeError:
+                pass
+        else:
+            lsl.GraphBuilder().add(c).build_model(copy=True)          # a copy build is allowed and must not touch the original either
+        pr += structure_problems(m)
+        m.vars["a"].value = 5.0
+        if float(m.vars["b"].value) != 10.0 or float(m.vars["c"].value) != 15.0:
+            pr.append(f"after the attempt, setting a = 5 gives b = {float(m.vars['b'].value)}, c = {float(m.vars['c'].value)} (expected 10, 15)")
+        return pr
+    for which in ("GraphBuilder().add(a)", "GraphBuilder().add(b)", "Model([a, c])", "GraphBuilder().add(c).build_model(copy=True)"):
+        nm = f"second build attempt {which} over a live model"
+        pr = chk.guarded(f"second-build:{which}", f"[{nm}]", second_build, which)
+        if pr:
+            chk.violation(f"second-build:{which}", f"[{nm}] the first model is damaged: " + "; ".join(pr), dict(reproduced=True, inputs=dict(attempt=which), observed=dict(problems=pr), note="concrete history on the real code"))
+        chk.enumerated.append(f"history: {nm}")
+
     # rejected graphs: cycles and duplicate names
     def cyc1():
         v = lsl.Value(1.0, _name="v")
